@@ -291,7 +291,7 @@ class CatLinearOperator(LinearOperator):
             if cat_dim_indices < 0:  # the offsets below are relative to the start of the concatenated dimension
                 cat_dim_indices = cat_dim_indices + self.idx_to_tensor_idx.numel()
             target_tensor = self.idx_to_tensor_idx[cat_dim_indices].item()
-            cat_dim_indices = cat_dim_indices - self.cat_dim_cum_sizes[target_tensor]
+            cat_dim_indices = cat_dim_indices - self.cat_dim_cum_sizes[target_tensor].item()
             indices[self.cat_dim] = cat_dim_indices
             res_list = [self.linear_ops[target_tensor]._getitem(indices[-2], indices[-1], *indices[:-2])]
 
